@@ -4,6 +4,8 @@
 cd "$(dirname "$0")/.."
 for d in seeded/*; do
   id=$(basename $d); prop=${id%%-*}
+  # MATRIX_ONLY="C06 C12": restrict to the seeded changes of these properties
+  if [ -n "$MATRIX_ONLY" ] && ! echo " $MATRIX_ONLY " | grep -q " $prop "; then continue; fi
   checks=${@:-$prop}
   git -C /repo apply "$PWD/$d/patch.diff" 2>/dev/null || { echo "$id: patch does not apply"; continue; }
   caught=""
